@@ -367,6 +367,14 @@ func CheckC05(r *core.Run) {
 	cfgs := pqCfgs(r, "c05", r.Pick(32, 200), func(i int, c *QCfg) { c.Steps = r.Pick(150, 400) })
 	traces := queueHistories(r, cfgs)
 	pqSample(r, traces)
+	{
+		for _, t := range traces {
+			if t != nil && len(t.Events) > 300 {
+				runSelfTest(r, "PQTrace", "PQTrace.cfg", t, pqMutants())
+				break
+			}
+		}
+	}
 	judgePQ(r, traces)
 }
 
